@@ -392,7 +392,7 @@ def run_case(prop, name, params, budget=None):
             elif o.kind == "eq":
                 try:
                     d, d1, d2 = S.cross_diff(o.impl, o.ref, rcache)
-                except z3.Z3Exception as e:
+                except (z3.Z3Exception, Abort) as e:
                     res["inconclusive"] += 1
                     res["notes"].append(f"normaliser gave up ({e}): {o.label}")
                     continue
